@@ -57,6 +57,11 @@ EXPLANATION += (
     'cut by column.'
 )
 
+EXPLANATION += (
+    ' Round 3: the CPM divisor replaces zero totals only (never a clamp '
+    'from below).'
+)
+
 RULE_TEXT = (
     "one obligation per dominance / typestate / provenance relation named "
     "above")
